@@ -42,6 +42,34 @@ Theorem C10_offer_filter :
 Proof. exact accepted_acceptable. Qed.
 Print Assumptions C10_offer_filter.
 
+(* The same through a protocol's TransportService (Kademlia, user protocols): the service appends
+   /p2p/<peer> to an offered address that ends in no peer id. What is remembered is therefore an
+   offered address that names the peer, or an offered address without a peer id with the id
+   appended - and it passed the filter above. *)
+Theorem C10_service_offer_filter :
+  forall c ls peer l a, In a (accepted c ls peer (ts_prepare peer l)) ->
+    (exists a0, In a0 l /\
+       ((last a0 (Other 0) = P2p peer /\ a = a0) \/
+        ((forall q, last a0 (Other 0) <> P2p q) /\ a = a0 ++ [P2p peer]))) /\
+    supported c a = true /\ is_local c ls a = false /\ last a (Other 0) = P2p peer.
+Proof. exact service_offer. Qed.
+Print Assumptions C10_service_offer_filter.
+
+(* Litep2p level: new() registers the listen addresses ls of the configured transports and then
+   adds Litep2pConfig::known_addresses; afterwards Litep2p::add_known_address. After any such
+   history every remembered address is supported, names its peer, is not local with respect to ls
+   and is dialable. No assumption. *)
+Theorem C10_litep2p_level :
+  forall c k ls h p s a z,
+    only_adds h ->
+    get p (bk (fst (run c k (mkState [] ls 0 []) h))) = Some s -> In (a, z) s ->
+    (supported c a = true /\ is_local c ls a = false /\ last a (Other 0) = P2p p) /\
+    (enabled c (route c a) = true /\
+     exists ho port, parse (route c a) a = Some (ho, port, Some p) /\
+                     host_unspecified ho = false).
+Proof. exact litep2p_level. Qed.
+Print Assumptions C10_litep2p_level.
+
 (* Registering further listen addresses can only make more addresses local. *)
 Theorem C10_listen_monotone :
   forall c l1 l2 a, incl l1 l2 -> is_local c l2 a = false -> is_local c l1 a = false.
@@ -77,26 +105,49 @@ Theorem C10_remembered_dialable :
 Proof. exact run_remembered. Qed.
 Print Assumptions C10_remembered_dialable.
 
+(* ... and, again without any condition on what dial_address is handed, none of the remembered
+   addresses is one of the node's own listen addresses L0 under whatever peer id: with the /p2p
+   suffix taken off it is neither a listen address nor a listen address followed by /p2p/<local>
+   (add_known_address and, since the repair of dial_address, dial_address both look the stripped
+   address up in the listen set). *)
+Theorem C10_remembered_not_own_listen :
+  forall c k L0 h p s a z,
+    Forall (op_strict c L0) h ->
+    get p (bk (fst (run c k (mkState [] L0 0 []) h))) = Some s -> In (a, z) s ->
+    (last a (Other 0) = P2p p /\ enabled c (route c a) = true /\
+     exists ho port, parse (route c a) a = Some (ho, port, Some p)) /\
+    forall l, In l L0 -> strip_p2p a <> l /\ strip_p2p a <> l ++ [P2p (local_peer c)].
+Proof.
+  intros c k L0 h p s a z Hw Hg Hin. destruct (run_strict c k L0 h p s a z Hw Hg Hin) as [H1 H2].
+  split; [exact H1 | exact (proj1 (not_own_spec _ _ _) H2)].
+Qed.
+Print Assumptions C10_remembered_not_own_listen.
+
 (* What dial_address lets through (and stores with score 0 before dialing): free outbound
-   capacity, not literally a registered listen address, and an address that names q and is parsed
-   with q by the enabled transport t it is handed to. *)
+   capacity, not a registered listen address - neither literally nor with its /p2p suffix taken
+   off, i.e. under another peer id - and an address that names q and is parsed with q by the
+   enabled transport t it is handed to. *)
 Theorem C10_dial_address_filter :
   forall c st a t q,
     dial_addr_check c st a = DAOk t q ->
     free_capacity c st 0 <> None /\
-    existsb (maddr_eqb a) (listen_set c (lst st)) = false /\
+    (existsb (maddr_eqb a) (listen_set c (lst st)) = false /\
+     existsb (maddr_eqb (strip_p2p a)) (listen_set c (lst st)) = false) /\
     route c a = t /\
     (last a (Other 0) = P2p q /\ enabled c (route c a) = true /\
      exists ho port, parse (route c a) a = Some (ho, port, Some q)).
-Proof. exact dial_addr_ok_spec. Qed.
+Proof.
+  intros c st a t q H. destruct (dial_addr_ok_spec _ _ _ _ _ H) as [H1 [H2 H3]].
+  split; [exact H1|]. split; [exact (own_listen_false _ _ _ H2) | exact H3].
+Qed.
 Print Assumptions C10_dial_address_filter.
 
 (* The two address checks agree on shapes: whatever add_known_address would accept, dial_address
-   dials through the same transport (given capacity, unless it literally is a listen address). *)
+   dials through the same transport (given capacity, unless it is a listen address). *)
 Theorem C10_supported_implies_dial_address :
   forall c st a,
     supported c a = true -> free_capacity c st 0 <> None ->
-    existsb (maddr_eqb a) (listen_set c (lst st)) = false ->
+    own_listen c (lst st) a = false ->
     exists q, last a (Other 0) = P2p q /\ dial_addr_check c st a = DAOk (route c a) q.
 Proof. exact supported_dial_addr. Qed.
 Print Assumptions C10_supported_implies_dial_address.
@@ -285,6 +336,16 @@ Print Assumptions C10_error_variants_in_sync.
 Theorem C10_store_sites_in_sync : ErrNames.model_store_sites = DialErrors.store_sites.
 Proof. exact ErrNames.store_sites_in_sync. Qed.
 Print Assumptions C10_store_sites_in_sync.
+
+(* The places of the crate where an address is offered to the book (calls of add_known_address /
+   dial_address in src/**/*.rs, extracted on every check) are the ten the model covers (see
+   ErrNames.v; identify.rs and mdns.rs offer none), and in Litep2p::new the configured known
+   addresses are added after the transports have registered their listen addresses. *)
+Theorem C10_entry_sites_in_sync :
+  ErrNames.model_entry_sites = DialErrors.entry_sites /\
+  ErrNames.listen_before_known DialErrors.new_call_order = true.
+Proof. exact ErrNames.entry_sites_in_sync. Qed.
+Print Assumptions C10_entry_sites_in_sync.
 
 Theorem C10_error_kinds_enumerated :
   forall e, In e all_dial_errors /\ err_of_code (err_code e) = Some e.
